@@ -16,10 +16,10 @@ pub const CONTEXTS: &[&str] = &[
 
 pub fn layouts(seed: u64) -> Vec<(&'static str, Layout)> {
     vec![
-        ("sparse", Layout { trivia: Trivia::Sparse, redundant_parens: 0, paren_assign_rhs: false, paren_deviating: false, seed }),
-        ("dense", Layout { trivia: Trivia::Dense, redundant_parens: 0, paren_assign_rhs: false, paren_deviating: false, seed: seed ^ 1 }),
-        ("sparse+parens", Layout { trivia: Trivia::Lines, redundant_parens: 30, paren_assign_rhs: false, paren_deviating: false, seed: seed ^ 2 }),
-        ("tight+parens", Layout { trivia: Trivia::Tight, redundant_parens: 15, paren_assign_rhs: false, paren_deviating: false, seed: seed ^ 3 }),
+        ("sparse", Layout { trivia: Trivia::Sparse, redundant_parens: 0, paren_assign_rhs: false, paren_deviating: false, trailing_commas: 0, seed }),
+        ("dense", Layout { trivia: Trivia::Dense, redundant_parens: 0, paren_assign_rhs: false, paren_deviating: false, trailing_commas: 0, seed: seed ^ 1 }),
+        ("sparse+parens+trailing-commas", Layout { trivia: Trivia::Lines, redundant_parens: 30, paren_assign_rhs: false, paren_deviating: false, trailing_commas: 40, seed: seed ^ 2 }),
+        ("tight+parens", Layout { trivia: Trivia::Tight, redundant_parens: 15, paren_assign_rhs: false, paren_deviating: false, trailing_commas: 0, seed: seed ^ 3 }),
     ]
 }
 
